@@ -528,13 +528,24 @@ class FileIndex(Index):
             # It removes any readers it reuses from the "reusable" dictionary,
             # so later we can close any readers left in the dictionary.
             def segreader(segment):
-                if segment in reusable:
-                    r = reusable[segment]
+                r = reusable.get(segment)
+                if r is not None and r.generation() is None:
+                    # Unversioned reader carried over as it is
                     del reusable[segment]
                     return r
-                else:
-                    return SegmentReader(storage, schema, segment,
-                                         generation=generation)
+                if r is not None and (set(r.segment().deleted_docs())
+                                      == set(segment.deleted_docs())):
+                    # Same segment with the same deletions: recycle the open
+                    # reader, stamped with the current schema and generation
+                    # (the reader it came from must not be used any more)
+                    del reusable[segment]
+                    r.schema = schema
+                    r._gen = generation
+                    return r
+                # New segment, or its deletions changed since the recycled
+                # reader was opened: open it from the current TOC's segment
+                return SegmentReader(storage, schema, segment,
+                                     generation=generation)
 
             if len(segments) == 1:
                 # This index has one segment, so return a SegmentReader object
